@@ -74,7 +74,16 @@ def _project_files(pid: int, n: int):
     k = (pid * 3) % (len(head) - 2)
     rot = (head[:2] + head[2 + k :] + head[2 : 2 + k] if pid else head) + pool[13:]
     sel = rot[:n]
-    return dict(sel), cfg
+    # the same constant in (nearly) every file: duplicate-constant messages list and truncate
+    # their "Also found in" locations in the order the files reached the rule
+    out = {}
+    for path, code in sel:
+        if path.endswith(".py"):
+            code = "MAX_RETRY_COUNT = 5\n" + code
+        elif path.endswith((".ts", ".js")):
+            code = "const MAX_RETRY_COUNT = 5;\n" + code
+        out[path] = code
+    return out, cfg
 
 
 # ----------------------------------------------------------------------------- runs
@@ -178,6 +187,9 @@ def items(tier: str, seed: int):
             out.append({"kind": "canonical", "pid": pid, "w": w, "n": n, "dev": 2 if tier == "quick" else 3})
     for cmd_block in chunks(load.ALL_COMMANDS, 4):
         out.append({"kind": "cli", "commands": cmd_block})
+    out.append({"kind": "emptycfg"})
+    out.append({"kind": "cli-multi-dir"})
+    out.append({"kind": "cli-config"})
     out.append({"kind": "realpool"})
     return out
 
@@ -274,6 +286,85 @@ def run_item(item) -> Acc:
                         for sig, ex in _diff_sigs(a, b, "cli"):
                             acc.fail(sig, case, {"sequential_has": len(a)}, {"parallel_has": len(b), "examples": ex[:2]})
                 remove(root)
+    elif k == "emptycfg":
+        # parent holds an EMPTY configuration (e.g. --config pointing at an empty file) while the
+        # project root has its own .thailint.yaml: workers must use the parent's, not reload the file
+        for w, n in ((1, 2), (2, 4), (2, 5), (3, 6)):
+            files, cfg = _project_files(0, n)
+            strict = load.deep_merge(cfg, {"nesting": {"max_nesting_depth": 1}, "magic-numbers": {"allowed_numbers": []}})
+            root = project({**files, ".thailint.yaml": yaml_dump(strict)})
+            paths = [root / p for p in files]
+            ref, _r = _sequential(root, paths, {})
+            for blocks in _canonical_blocks(n, w):
+                order = [i for b in blocks for i in b]
+                got, _v, used, exc, sw = _parallel(root, paths, {}, w, blocks=blocks, order=order)
+                acc.case()
+                acc.edge()
+                acc.valid()
+                if used:
+                    acc.nt(("emptycfg", w, n, blocks))
+                _compare(acc, ref, got, "empty-parent-config", {"project": 0, "w": w, "n": n, "files": list(files), "blocks": blocks, "order": order, "empty_config": True}, exc, sw)
+            remove(root)
+    elif k == "cli-config":
+        # an explicit --config file (same as the project's, a looser one, or an EMPTY one) while
+        # the project root has its own strict .thailint.yaml: workers must see the parent's choice
+        files, cfg = _project_files(0, 6)
+        strict = load.deep_merge(cfg, {"nesting": {"max_nesting_depth": 1}, "magic-numbers": {"allowed_numbers": []}})
+        variants = {
+            "empty": "# nothing configured here\n",
+            "empty-json": "{}\n",
+            "same": yaml_dump(strict),
+            "loose": yaml_dump({"nesting": {"max_nesting_depth": 6}, "magic-numbers": {"allowed_numbers": [5, 42, 3600]}}),
+        }
+        for cmd in ("nesting", "magic-numbers", "dry"):
+            for vname, text in variants.items():
+                for cpus, n in ((1, 2), (2, 4), (3, 6)):
+                    names = list(files)[:n]
+                    cfile = "alt/choice.json" if vname.endswith("json") else "alt/choice.yaml"
+                    root = project({**{k_: files[k_] for k_ in names}, ".thailint.yaml": yaml_dump(strict), cfile: text})
+                    seq = obs.cli_json([cmd, "--config", cfile, *names], root)
+                    with vpool.install(cpu_count=cpus):
+                        vpool.SCHEDULE.update({"blocks": None, "order": None, "results": None})
+                        par = obs.cli_json([cmd, "--config", cfile, "--parallel", *names], root)
+                    acc.case(2)
+                    acc.edge()
+                    acc.valid()
+                    if seq["violations"] or par["violations"]:
+                        acc.nt(("cli-config", cmd, vname, cpus, n))
+                    case = {"cli": cmd, "cpus": cpus, "n": n, "config_variant": vname, "cli_config": True}
+                    if seq["exit_code"] != par["exit_code"]:
+                        acc.fail({"side": "cli", "command": cmd, "mode": "exit-code", "config": vname}, case, seq["exit_code"], par["exit_code"])
+                    a = sorted(tuple(v.get(f) for f in FIELDS[:6]) for v in (seq["violations"] or []))
+                    b = sorted(tuple(v.get(f) for f in FIELDS[:6]) for v in (par["violations"] or []))
+                    if a != b:
+                        for sig, ex in _diff_sigs(a, b, "cli"):
+                            acc.fail({**sig, "config": "explicit-empty" if vname.startswith("empty") else "explicit"}, case, {"sequential_has": len(a)}, {"parallel_has": len(b), "examples": ex[:2]})
+                    remove(root)
+    elif k == "cli-multi-dir":
+        # several directory arguments: sequential and parallel must treat them alike
+        files, cfg = _project_files(0, 6)
+        for cmd in ("dry", "stringly-typed", "magic-numbers", "nesting"):
+            for cpus in (1, 2):
+                root = project({**files, ".thailint.yaml": yaml_dump(cfg)})
+                tops = sorted({p.split("/")[0] for p in files if "/" in p})
+                seq = obs.cli_json([cmd, *tops], root)
+                with vpool.install(cpu_count=cpus):
+                    vpool.SCHEDULE.update({"blocks": None, "order": None, "results": None})
+                    par = obs.cli_json([cmd, "--parallel", *tops], root)
+                acc.case(2)
+                acc.edge()
+                acc.valid()
+                if seq["violations"]:
+                    acc.nt(("multi-dir", cmd, cpus))
+                case = {"cli": cmd, "cpus": cpus, "targets": tops, "multi_dir": True}
+                if seq["exit_code"] != par["exit_code"]:
+                    acc.fail({"side": "cli", "command": cmd, "mode": "exit-code", "targets": "several-directories"}, case, seq["exit_code"], par["exit_code"])
+                a = sorted(tuple(v.get(f) for f in FIELDS[:6]) for v in (seq["violations"] or []))
+                b = sorted(tuple(v.get(f) for f in FIELDS[:6]) for v in (par["violations"] or []))
+                if a != b:
+                    for sig, ex in _diff_sigs(a, b, "cli"):
+                        acc.fail({**sig, "targets": "several-directories"}, case, {"sequential_has": len(a)}, {"parallel_has": len(b), "examples": ex[:2]})
+                remove(root)
     elif k == "realpool":
         # conformance: the unpatched ProcessPoolExecutor through a fresh process
         files, cfg, _idx = load.zoo_project()
@@ -304,6 +395,12 @@ def run_item(item) -> Acc:
 
 def replay_case(case) -> list[dict]:
     acc = Acc()
+    if case.get("empty_config"):
+        return [f for f in run_item({"kind": "emptycfg"}).failures if f["case"].get("blocks") == case.get("blocks") and f["case"].get("n") == case.get("n")]
+    if case.get("multi_dir"):
+        return [f for f in run_item({"kind": "cli-multi-dir"}).failures if f["case"].get("cli") == case["cli"]]
+    if case.get("cli_config"):
+        return [f for f in run_item({"kind": "cli-config"}).failures if all(f["case"].get(k_) == case.get(k_) for k_ in ("cli", "cpus", "n", "config_variant"))]
     if case.get("realpool") or "cli" in case:
         cmd = case["cli"]
         if case.get("realpool"):
